@@ -16,11 +16,11 @@ import vlib
 
 MODULE = "Handshake12"
 MUTS = ["absent", "wrongcookie", "lastbit", "truncated", "extended", "stale", "emptycookie", "random", "sessionid",
-        "suites-reorder", "suites-drop", "ext-drop", "genuine",
+        "suites-reorder", "suites-drop", "ext-drop", "ext-append", "genuine",
         "stim-emptyack", "stim-ack", "stim-ccs", "stim-warning-alert", "stim-hs-garbage"]
 # RFC 6347 4.2.1 lists version, random, session_id, cipher_suites, compression_methods as the parameters the second
 # ClientHello must repeat (plus CID / use_srtp per the anchor): other DTLS 1.2 extensions are informational (DESIGN 4, C13)
-INFO_ONLY = {("12", "ext-drop")}
+INFO_ONLY = {("12", "ext-drop"), ("12", "ext-append")}
 
 
 def run(chk):
@@ -31,7 +31,7 @@ def run(chk):
     scripts = hsreplay.generate(chk, "full")
     # stale12: session stores present, the client offers a session id the server does not know ("does not resume a session it
     # knows"); "+nb": retransmission backoff disabled (the timer branch that must never send a cookie request is another one)
-    fams = ["full12", "psk12", "stale12", "full12+nb"] if chk.quick else ["full12", "psk12", "clientauth12", "cid12", "stale12", "stores12", "full12+nb", "stale12+nb"]
+    fams = ["full12", "psk12", "psknohint12", "stale12", "full12+nb"] if chk.quick else ["full12", "psk12", "psknohint12", "clientauth12", "cid12", "stale12", "stores12", "full12+nb", "stale12+nb"]
     for famx in fams:
         fam, nb = famx.split("+")[0], famx.endswith("+nb")
         share = scripts if famx == "full12" else scripts[chk.seed % 3::3]
@@ -68,7 +68,7 @@ def run(chk):
     chk.parts["replay13.hrr.nobackoff"] = {"scripts": summ["scripts"], "cookie_violations": nnb}
     # (C) ClientHello pairs
     cases = []
-    fams = ["full12", "psk12", "stale12", "hrr13s"] if chk.quick else ["full12", "psk12", "cid12", "clientauth12", "stale12", "stores12", "hrr13s"]
+    fams = ["full12", "psk12", "psknohint12", "stale12", "hrr13s"] if chk.quick else ["full12", "psk12", "psknohint12", "cid12", "clientauth12", "stale12", "stores12", "hrr13s"]
     for fam in fams:
         for mut in MUTS:
             for reps in (1, 2, 3):
